@@ -54,6 +54,9 @@ fn write_multiple_files(
 
 /// Write the file if the contents have changed.
 fn check_write_file(outfile: &Path, output: Vec<u8>) -> anyhow::Result<()> {
+    // verification seam (off by default): output-side fs calls go through the simulator
+    #[cfg(typeshare_verif)]
+    use verif_rt::fs;
     match fs::read(outfile) {
         Ok(buf) if buf == output => {
             // avoid writing the file to leave the mtime intact
